@@ -92,7 +92,7 @@ LIT_W_OPEN = LIT_W + (1, 1, 1)
 U1 = '6a2f41a3-c54c-4cd1-9f3e-2d1c7e9b5a01'
 VALS = {
     None: ('zz', '7', 'a', '42', 'a-b', 'b'),
-    'int': ('7', '42', '123', '007', '5', '-5', 'zz', '10', '50', '45'),
+    'int': ('7', '42', '123', '007', '5', '-5', 'zz', '10', '50', '45', '\u00b2', '1\u2460'),
     'float': ('1.5', '7', 'zz', '-1.5', '0', '-0.0', '8.25'),
     'uuid': (U1, U1.replace('-', ''), 'zz'),
     'hex': ('ff', '7', 'zz', '1a2', '0f', '42', '123'),
